@@ -86,6 +86,7 @@ const marker = "zqx"
 var hostile = []string{
 	"zqx'", "zqx''", "zqx' or '1'='1", "zqx\\", "zqx\\'", "zqx\\' or 1=1 --", "zqx\"", "zqx--", "zqx/*", "zqx*/", "zqx;select 1", "zqx?", "zqx ? ?", "zqx$$", "zqx$1", "zqx$tag$",
 	"zqx\x00'", "zqxé'", "zqx" + strings.Repeat("'a", 60), "zqx{}", "zqx\"]", "zqx$[0]", "zqx)", "zqx')::jsonpath or true--", "zqx\" || \"", "zqx\n'", "zqx%", "zqx_%'", "zqx'::text", "E'zqx\\'", "zqx''--",
+	"zqx?0", "zqx?1", "zqx?0?1 ?", "?0zqx'", "zqx?0:x?1", // positional placeholders: another clause's value would be substituted into the text
 	"zqx", // benign control: must behave like the baseline
 }
 
@@ -168,10 +169,16 @@ func isAddressKey(k string) bool {
 
 func jsonStr(s string) string { return vc.MustJSON(s) }
 
-func buildV2(ep endpointV2, key, op, value string, extraAnd bool) (string, string) {
+func buildV2(ep endpointV2, key, op, value string, extraAnd int) (string, string) {
 	body := fmt.Sprintf(`{%s: {%s: %s}}`, jsonStr(op), jsonStr(key), jsonStr(value))
-	if extraAnd {
-		body = fmt.Sprintf(`{"$and": [{"$match": {"metadata[z]": "1"}}, {"$or": [%s]}]}`, body)
+	other := `{"$match": {"metadata[z]": "o'o"}}`
+	switch extraAnd {
+	case 1: // other value-carrying clause first
+		body = fmt.Sprintf(`{"$and": [%s, {"$or": [%s]}]}`, other, body)
+	case 2: // ... or after
+		body = fmt.Sprintf(`{"$and": [{"$or": [%s]}, %s]}`, body, other)
+	case 3:
+		body = fmt.Sprintf(`{"$or": [%s, %s, %s]}`, other, body, other)
 	}
 	return ep.path + "?pageSize=5", body
 }
@@ -200,7 +207,10 @@ func genFilterCase(r *vc.Rand, value string) (hostileCase, benignCase filterCase
 			hv = addressShapes(r, value)
 			bv = benignOf(hv, true)
 		}
-		and := r.Chance(1, 4)
+		and := 0
+		if r.Chance(1, 2) {
+			and = r.Range(1, 3)
+		}
 		ht, hb := buildV2(ep, hkey, op, hv, and)
 		bt, bb := buildV2(ep, bkey, op, bv, and)
 		return filterCase{Endpoint: ep.name, Key: key, Op: op, Position: pos, Value: hv, Method: ep.method, Target: ht, Body: hb},
@@ -220,10 +230,17 @@ func genFilterCase(r *vc.Rand, value string) (hostileCase, benignCase filterCase
 		hp, bp = "metadata["+value+"]", "metadata[x]"
 		hv, bv = "v", "v"
 	}
+	twoParams := r.Chance(1, 2)
 	mk := func(param, v string) string {
 		q := url.Values{}
 		q.Set(param, v)
 		q.Set("pageSize", "5")
+		if twoParams && !strings.HasPrefix(param, "metadata") {
+			q.Set("metadata[z]", "o'o") // a second value-carrying clause
+		}
+		if twoParams && strings.HasPrefix(param, "metadata") && strings.Contains(ep.path, "accounts") {
+			q.Set("address", "x:")
+		}
 		if param == "balance" {
 			q.Set("balanceOperator", vc.Pick(r, []string{"e", "ne", "gt", "lte"}))
 		}
